@@ -79,6 +79,11 @@ func genPlan(r *Rng, allowStutter, allowEOFData bool) ReadPlan {
 		default:
 			p.Tail = "k" + itoa(tailSizes[r.Intn(len(tailSizes))])
 		}
+		if allowStutter && r.Chance(1, 6) {
+			// a (0,nil) before every data read, for the whole stream: hundreds of legal
+			// "nothing yet" results, never two in a row
+			p.Tail = "zk" + itoa([]int{1, 3, 16, 64, 500}[r.Intn(5)])
+		}
 	}
 	if allowEOFData && r.Chance(1, 4) {
 		p.EOFWithData = true
@@ -97,10 +102,15 @@ func planClass(p ReadPlan) string {
 				break
 			}
 		}
+		if strings.HasPrefix(p.Tail, "z") {
+			c = "mixed+stutter-every"
+		}
 	case p.Tail == "one":
 		c = "one"
 	case strings.HasPrefix(p.Tail, "k"):
 		c = "short"
+	case strings.HasPrefix(p.Tail, "z"):
+		c = "short+stutter-every"
 	}
 	if p.EOFWithData {
 		c += "+eofdata"
